@@ -443,7 +443,7 @@ def compare(Mx, c, Rregs, Rmem, Sregs, side, P, res, info, key, what, acc, use_m
         else:
             if os.environ.get("VERIF_DEBUG"):
                 print("DEBUG", what, k, "\n GOT ", z3.simplify(got), "\n WANT", z3.simplify(want), "\n MODEL", mdl)
-            _viol(res, dict(info, loc=k[0]), key + ":reg", mdl, "%s: %s differs from step-by-step execution" % (what, k[0]), c, acc)
+            _viol(res, dict(info, loc=k[0]), key + ":reg(%s)" % k[0], mdl, "%s: %s differs from step-by-step execution" % (what, k[0]), c, acc)
             return False
     if not only_written:
         res["obligations"] += 1
